@@ -539,9 +539,7 @@ Definition set_next_num_in (m : msg) : M Z :=
       end
   end.
 
-Definition finalize (m : msg) (now : Z) : M unit :=
-  r <- set_next_num_in m ;;
-  if r <=? 0 then ret tt else
+Definition finalize_tail (m : msg) (now : Z) (r : Z) : M unit :=
   w <- getw ;;
   (if st w =? ST_AWAITING then
      if negb (0 <? maxres w) then raise XAssertion else
@@ -550,28 +548,37 @@ Definition finalize (m : msg) (now : Z) : M unit :=
   modw (set_lastt now) ;;;
   persist_in m.
 
+Definition finalize (m : msg) (now : Z) : M unit :=
+  r <- set_next_num_in m ;;
+  if r <=? 0 then ret tt else finalize_tail m now r.
+
 (* --- _process_message --- *)
 
 (* the try body up to and including _check_seqnum_gaps.
    None = one of the early returns; Some b = is_valid_msg_num *)
+Definition pre_handlers (c : cfg) (m : msg) (w : world) : M unit :=
+  (if st w =? ST_NCE then state_set ST_LOGON_RECV ;;; modw (set_role ROLE_ACCEPTOR) else ret tt) ;;;
+  match mkind m with
+  | KLogon => process_logon c m
+  | KSeqReset => process_seqreset c m
+  | KLogout => process_logout c m
+  | _ => ret tt
+  end.
+
+Definition gap_check (c : cfg) (m : msg) : M (option bool) :=
+  w1 <- getw ;;
+  if st w1 <=? ST_DISC_BROKEN then ret None else
+  n <- lift (get_int T34 m) ;;
+  b <- check_gaps c n ;;
+  ret (Some b).
+
 Definition part1 (c : cfg) (m : msg) : M (option bool) :=
   w <- getw ;;
   if st w <? ST_NCE then raise XAssertion else
   if (st w =? ST_NCE) && negb (match mkind m with KLogon => true | _ => false end) then
     disconnect c ST_DISC_BROKEN None ;;; ret None
   else
-    (if st w =? ST_NCE then state_set ST_LOGON_RECV ;;; modw (set_role ROLE_ACCEPTOR) else ret tt) ;;;
-    (match mkind m with
-     | KLogon => process_logon c m
-     | KSeqReset => process_seqreset c m
-     | KLogout => process_logout c m
-     | _ => ret tt
-     end) ;;;
-    w1 <- getw ;;
-    if st w1 <=? ST_DISC_BROKEN then ret None else
-    n <- lift (get_int T34 m) ;;
-    b <- check_gaps c n ;;
-    ret (Some b).
+    pre_handlers c m w ;;; gap_check c m.
 
 Definition dispatch (c : cfg) (m : msg) (valid : bool) : M unit :=
   match mkind m with
@@ -583,18 +590,20 @@ Definition dispatch (c : cfg) (m : msg) (valid : bool) : M unit :=
   | KLogout | KApp => if valid then emit (App m) else ret tt
   end.
 
+(* after the try block: dispatch under `except Exception`, then `finally: if is_valid_msg_num` *)
+Definition after_part1 (c : cfg) (m : msg) (now : Z) (r1 : option (option bool)) : M unit :=
+  match r1 with
+  | Some (Some true) => try_ (dispatch c m true) ;;; finalize m now
+  | Some (Some false) => try_ (dispatch c m false) ;;; ret tt
+  | _ => ret tt
+  end.
+
 Definition process_message (c : cfg) (m : msg) (now : Z) : M unit := fun w =>
   match validate_integrity c m w with
   | VExc x => raise x w
   | VTrue => disconnect c ST_DISC_BROKEN None w
   | VStr s => disconnect c ST_DISC_BROKEN (Some s) w
-  | VOk =>
-      (r1 <- try_ (part1 c m) ;;
-       match r1 with
-       | Some (Some true) => try_ (dispatch c m true) ;;; finalize m now
-       | Some (Some false) => try_ (dispatch c m false) ;;; ret tt
-       | _ => ret tt
-       end) w
+  | VOk => (r1 <- try_ (part1 c m) ;; after_part1 c m now r1) w
   end.
 
 (* ------------------------------------------------------------------ histories *)
